@@ -328,6 +328,13 @@ func checkFailure(r *Run, twin *Run, ev *Eval, fj *JobRec, m manifest, persisten
 		if !strings.HasSuffix(e.Path, "/_errors") && !strings.HasSuffix(e.Path, "/_assert") {
 			continue
 		}
+		if r.Cfg.JobMode != "" && r.Cfg.JobMode != "local" {
+			// cluster mode: mrp's queue check legitimately records an error for a job
+			// the scheduler no longer lists (it races with jobs that are just
+			// finishing, and a re-attach after an in-process retry resets what it
+			// finds orphaned); those errors are transient and retried
+			break
+		}
 		rel := strings.TrimPrefix(e.Path, "ps/")
 		if !strings.HasPrefix(rel, fj.Node+"/"+fj.Fork+"/") && !strings.HasPrefix(rel, fj.Node+"/"+fj.Fork+"_") {
 			add("error-written-for-other-call", "mrp wrote "+e.Path)
